@@ -18,7 +18,7 @@ for snap in sys.argv[1:]:
                 n += 1
                 json.dump(b, open(q, "w"), indent=1)
                 open(q, "a").write("\n")
-    for f in ("sens.json", "determinism.log"):
+    for f in ("sens.json",):
         if os.path.exists(os.path.join(snap, f)):
             shutil.copy(os.path.join(snap, f), os.path.join(VERIF, f))
             print("copied", f)
